@@ -418,6 +418,28 @@ func (c config) String() string {
 	return fmt.Sprintf("logger: %s, log handler minimum level %s | global-resolver=%s route-resolver=%s custom-special-handlers=%v", attachModes[c.attach].name, minLevels[c.minLvl].name, g, r, c.special)
 }
 
+// context substituted by a middleware placed BEFORE the Logger: none, a pooled copy from CloneWith, or a
+// Clone() whose writer is set back to the live one
+var curSubst int
+var substNames = []string{"none", "next(c.CloneWith(c.Writer(), c.Request()))", "next(c.Clone() + SetWriter(c.Writer()))"}
+
+func substitute(next fox.HandlerFunc) fox.HandlerFunc {
+	return func(c fox.Context) {
+		switch curSubst {
+		case 1:
+			cp := c.CloneWith(c.Writer(), c.Request())
+			defer cp.Close()
+			next(cp)
+		case 2:
+			cp := c.Clone()
+			cp.SetWriter(c.Writer())
+			next(cp)
+		default:
+			next(c)
+		}
+	}
+}
+
 func build(cfg config, w *world, withLogger bool) *fox.Router {
 	marker := func(next fox.HandlerFunc) fox.HandlerFunc {
 		return func(c fox.Context) {
@@ -431,6 +453,7 @@ func build(cfg config, w *world, withLogger bool) *fox.Router {
 	if cfg.attach == attachDefaultOptions {
 		opts = append(opts, fox.DefaultOptions()) // Recovery() for routes + Logger() to stdout (not observable here)
 	}
+	opts = append(opts, fox.WithMiddleware(substitute)) // outside every Logger attached below
 	if withLogger {
 		switch cfg.attach {
 		case 0, 5, attachDefaultOptions:
@@ -536,8 +559,9 @@ type observed struct {
 	after    bool
 }
 
-func serve(f *fox.Router, w *world, rq reqSpec, host string, rm remote, script []act, fk int) observed {
+func serve(f *fox.Router, w *world, rq reqSpec, host string, rm remote, script []act, fk int, subst int) observed {
 	w.recs, w.events = nil, nil
+	curSubst = subst
 	cur = script
 	curWorld = w
 	curDispatch = rq.disp
@@ -734,7 +758,7 @@ func main() {
 			"Definition viol := Eval vm_compute in spec_violations cases.\nPrint viol.\n" +
 			"Definition oof := Eval vm_compute in fuel_outs cases.\nPrint oof.\n",
 	}
-	st := &hx.Stats{Rule: "per configuration (capturing log handler with minimum level DEBUG / INFO / WARN / ERROR / above ERROR; Logger attached by WithMiddleware / WithMiddlewareFor with 4 scope masks / route option / several at once / DefaultOptions; router-wide resolver: none/ok/error tree; per-route resolver: inherit/nil/set; default or scripted 404/405/OPTIONS handlers) two routers are built (with and without LoggerWithHandler(capture)); every request kind (route, route reached through an alias handler calling Route.HandleMiddleware or Route.Handle, route reached by Router.Lookup + HandleMiddleware / Handle, route via ignore-trailing-slash, 404, 405, redirect 301/308, OPTIONS) is served with scripts of writer actions: (a) every status of a boundary list alone, (b) seeded random scripts (no write, implicit 200, 1xx then final, superfluous WriteHeader, Location before/after the status line, Flush/FlushError first (c.Writer().FlushError() or http.NewResponseController(w).Flush(), on an underlying writer offering nothing / http.Flusher / FlushError() error; enumerated with then-nothing / WriteHeader(500|404|302) / Write) — the underlying writers record what the CLIENT received (first final status forwarded; 200 after a bare flush or write), panic with one of 6 values at a random position); non-trivial = anything but a plain 2xx route request without resolver; distinct = distinct (configuration, request, host, remote, script) tuples"}
+	st := &hx.Stats{Rule: "per configuration (a middleware placed before the Logger hands on the context itself, a CloneWith copy or a Clone() with the live writer; capturing log handler with minimum level DEBUG / INFO / WARN / ERROR / above ERROR; Logger attached by WithMiddleware / WithMiddlewareFor with 4 scope masks / route option / several at once / DefaultOptions; router-wide resolver: none/ok/error tree; per-route resolver: inherit/nil/set; default or scripted 404/405/OPTIONS handlers) two routers are built (with and without LoggerWithHandler(capture)); every request kind (route, route reached through an alias handler calling Route.HandleMiddleware or Route.Handle, route reached by Router.Lookup + HandleMiddleware / Handle, route via ignore-trailing-slash, 404, 405, redirect 301/308, OPTIONS) is served with scripts of writer actions: (a) every status of a boundary list alone, (b) seeded random scripts (no write, implicit 200, 1xx then final, superfluous WriteHeader, Location before/after the status line, Flush/FlushError first (c.Writer().FlushError() or http.NewResponseController(w).Flush(), on an underlying writer offering nothing / http.Flusher / FlushError() error; enumerated with then-nothing / WriteHeader(500|404|302) / Write) — the underlying writers record what the CLIENT received (first final status forwarded; 200 after a bare flush or write), panic with one of 6 values at a random position); non-trivial = anything but a plain 2xx route request without resolver; distinct = distinct (configuration, request, host, remote, script) tuples"}
 	seen := map[string]bool{}
 	nontrivial := 0
 
@@ -841,7 +865,7 @@ func main() {
 			} else {
 				scripts = [][]act{nil}
 			}
-			for _, script := range scripts {
+			for si, script := range scripts {
 				host := hx.Pick(rnd, hosts)
 				rm := hx.Pick(rnd, remotes)
 				if cfg.attach == attachDefaultOptions {
@@ -864,8 +888,17 @@ func main() {
 				for i := range script {
 					script[i].fk = fk
 				}
-				o := serve(withL, w, rq, host, rm, script, fk)
-				b := serve(without, w0, rq, host, rm, script, fk)
+				// context substitution by an earlier middleware: forced for the first scripts of route requests
+				// (so every route resolver override meets both substitutions), random otherwise
+				subst := []int{0, 0, 0, 1, 1, 2}[rnd.Intn(6)]
+				if (rq.kind == "KRoute" || rq.kind == "KRouteTsr") && si < 2 {
+					subst = si + 1
+				}
+				if strings.HasPrefix(rq.disp, "DLookup") {
+					subst = 0 // router-wide middleware is not in that chain
+				}
+				o := serve(withL, w, rq, host, rm, script, fk, subst)
+				b := serve(without, w0, rq, host, rm, script, fk, subst)
 				same := o.digest == b.digest && o.panicID == b.panicID
 				// the script the MODEL is given: for handlers fox supplies itself (default 404/405/OPTIONS,
 				// trailing-slash redirect) it is read off the underlying writer of the Logger-less router
@@ -879,7 +912,7 @@ func main() {
 				}
 				acts := hx.ListOf(mscript, func(a act) string { return a.coq() })
 				gc, rc := strings.ReplaceAll(cfg.globCoq(), remotePlaceholder, hx.Bytes(rm.ip)), strings.ReplaceAll(cfg.rtCoq(), remotePlaceholder, hx.Bytes(rm.ip))
-				key := fmt.Sprintf("%s|%s|%s|%s|%s|%s|%s|%s|%s|%d|%s", gc, rc, rq.kind, rq.method, rq.target, host, rm.addr, acts, hx.Bool(cfg.special), cfg.attach*10+cfg.minLvl, rq.disp)
+				key := fmt.Sprintf("%s|%s|%s|%s|%s|%s|%s|%s|%s|%d|%s", gc, rc, rq.kind, rq.method, rq.target, host, rm.addr, acts, hx.Bool(cfg.special), cfg.attach*10+cfg.minLvl, rq.disp+fmt.Sprint(subst))
 				if seen[key] {
 					continue
 				}
@@ -902,11 +935,12 @@ func main() {
 				for _, r := range o.recs {
 					rs = append(rs, recHuman(r))
 				}
-				human := fmt.Sprintf("%s | %s %s Host=%q RemoteAddr=%s (%s%s) | handler: [%s] => records [%s] panic=%d status=%d Location=%q same-response-as-without-logger=%v logged-after-handler=%v",
-					cfg, rq.method, rq.target, host, rm.addr, rq.kind, map[bool]string{true: "", false: " via " + rq.disp}[rq.disp == ""], strings.Join(hs, "; "), strings.Join(rs, " || "), o.panicID, o.status, o.location, same, o.after)
+				human := fmt.Sprintf("%s | %s %s Host=%q RemoteAddr=%s (%s%s, context substituted before the Logger: %s) | handler: [%s] => records [%s] panic=%d status=%d Location=%q same-response-as-without-logger=%v logged-after-handler=%v",
+					cfg, rq.method, rq.target, host, rm.addr, rq.kind, map[bool]string{true: "", false: " via " + rq.disp}[rq.disp == ""], substNames[subst], strings.Join(hs, "; "), strings.Join(rs, " || "), o.panicID, o.status, o.location, same, o.after)
 				cs.Add(term, human)
 				st.Count("kind:" + rq.kind)
 				st.Count("logger-attached:" + attachModes[cfg.attach].name)
+				st.Count("context-substituted-before-logger:" + substNames[subst])
 				st.Count("log-handler-min-level:" + minLevels[cfg.minLvl].name)
 				st.Count(fmt.Sprintf("records-per-request:%d", len(o.recs)))
 				if rq.disp != "" {
